@@ -291,6 +291,23 @@ class _Flattener:
             cs.body = self.block(cs.body, stack, depth)
         if depth <= 0:
             return [s]
+        # `if helper(x):` / `if not helper(x):` with a multi-statement helper: `t = helper(x); if t:` (analysis-only rewrite)
+        if isinstance(s, ast.If):
+            te = s.test
+            neg = False
+            while isinstance(te, ast.UnaryOp) and isinstance(te.op, ast.Not):
+                te, neg = te.operand, not neg
+            if isinstance(te, ast.Call):
+                got0 = _helper_of(te, self.fn, self.mod)
+                if got0 is not None and _inlinable(got0[0], stack) and not isinstance(got0[0].node, ast.AsyncFunctionDef):
+                    hb = [x for x in got0[0].node.body if not (isinstance(x, ast.Expr) and isinstance(x.value, ast.Constant))]
+                    if not (len(hb) == 1 and isinstance(hb[0], ast.Return)):
+                        self.count += 1
+                        tmp = f"__cond{self.count}"
+                        pre = ast.copy_location(ast.Assign(targets=[ast.Name(id=tmp, ctx=ast.Store())], value=te, lineno=s.lineno), s)
+                        nm: ast.AST = ast.Name(id=tmp, ctx=ast.Load())
+                        s.test = ast.copy_location(ast.UnaryOp(op=ast.Not(), operand=nm) if neg else nm, s.test)
+                        return self.stmt(ast.fix_missing_locations(pre), stack, depth) + [s]
         call = target = None
         kind = None
         if isinstance(s, ast.Expr):
